@@ -476,7 +476,7 @@ def worker_history(seed, tier, out_path):
         if kind == "fail_trace":
             def f(x):
                 y = jnp.sin(x) + nnx.relu(x)
-                if hasattr(y, "aval") and not isinstance(y, jax.Array):
+                if isinstance(y, jax.core.Tracer):
                     raise ValueError("c13: user function raises while being traced")
                 return y
             return ("fail_trace", False, lambda: to_onnx(f, [(3,)], enable_double_precision=dbl), (f, x3), dbl)
